@@ -116,7 +116,23 @@ def profile_get(rnd, tier):
     c = 1
     for _ in range(rnd.randrange(1, 4)):
         outcome = rnd.choice(['ok', 'ok', 'ok', 'empty', 'chclose', 'connclose',
-                              'timeout0', 'timeout1', 'timeout2', 'consumer'])
+                              'timeout0', 'timeout1', 'timeout2', 'consumer', 'returned'])
+        if outcome == 'returned':
+            # a mandatory message comes back while the get waits: the Return and its content
+            # arrive before the GetOk, cut into reads anywhere; the get completes, the return is
+            # reported by the operation that follows
+            steps.append((c, ('publish', True), []))
+            g.dtag += 1
+            frames = g.returned(c, rnd.choice([312, 313])) + g.content(c, F('NGetOk', g.dtag))
+            ticks = []
+            i = 0
+            while i < len(frames):
+                n = rnd.randrange(1, 4)
+                ticks.append(frames[i:i + n])
+                i += n
+            steps.append((c, ('get',), ticks))
+            steps.append((c, ('check',), []))
+            continue
         if outcome == 'consumer':
             steps.append((c, ('consume', b'ct'), [[(c, F('NConsumeOk', 0, b'ct'))]]))
             two = rnd.random() < 0.5
